@@ -133,4 +133,12 @@ CLAIMS = {
                 '(depth 6/7) are not handled by the code (bootstrap reads 5 of 6 nodes; Electra updates are "unknown update type"): liveness only, noted.',
         'technique': 'Lean 4 decision-logic + invariant proofs (induction over update sequences, Merkle soundness without injectivity axiom) + differential correspondence with real BLS',
     },
+    'C17': {
+        'text': 'Lean 4 theorems: along every put history every committed batch leaves a consistent image (ascending keys, no reserved key, counter >= bytes present); '
+                'reopening any consistent image yields a store satisfying the full invariant, prunes an over-capacity store by >= 5%, and sets the radius to the '
+                'farthest key above 95% and to the maximum otherwise (ideal reading). The real pebble store is cut at every mutating file-system call (both keeping and '
+                'dropping unsynced data), reopened, and must equal the model reopen of some batch prefix.',
+        'note': TB + 'pebble\'s atomic-batch / prefix-durability contract is an assumption that the correspondence validates, not a theorem; the radius clause inherits the C06 little-endian known finding.',
+        'technique': 'Lean 4 invariant proof over batch prefixes + crash-point enumeration on the real store (correspondence as a prefix relation)',
+    },
 }
